@@ -54,20 +54,20 @@ def check(ck: Checker) -> None:
     _check_checkout(ck)
 
 
-def _check_base(ck: Checker) -> None:
+def _check_base(ck: Checker, rule: str = "C07.check") -> None:
     prog = ck.prog
     fn = prog.func("hashfile.db", "HashFileDB.check")
     g = ck.cfg(fn)
     hcalls = [(n, c) for n in g.nodes.values() for c in calls_at(n) if call_name(c) == "hash_file"]
-    ck.floor("C07.check", len(hcalls), 1, "hash_file calls in HashFileDB.check")
+    ck.floor(rule, len(hcalls), 1, "hash_file calls in HashFileDB.check")
     hn, hc = hcalls[0]
     # hashed path/fs belong to self.get(oid); algorithm is the store's
     a_path = get_arg(hc, None, "path", pos=0)
     a_name = get_arg(hc, None, "name", pos=2)
     okp = any(norm(alt) == "self.get(oid).path" for alt in expand(prog, fn, a_path)) if a_path is not None else False
-    ck.require(okp, "C07.check", fn, hn, "re-hashes the file of the object named oid (self.get(oid).path)",
+    ck.require(okp, rule, fn, hn, "re-hashes the file of the object named oid (self.get(oid).path)",
                f"the re-hashed path ({norm(a_path) if a_path is not None else '?'}) is not the path of the object named by `oid`", construct="hash_file(...) / path")
-    ck.require(a_name is not None and norm(a_name) == "self.hash_name", "C07.check", fn, hn, "hashes with the store's algorithm",
+    ck.require(a_name is not None and norm(a_name) == "self.hash_name", rule, fn, hn, "hashes with the store's algorithm",
                "the integrity check does not hash with the store's own algorithm", construct="hash_file(...) / algorithm")
 
     # the comparison
@@ -83,10 +83,10 @@ def _check_base(ck: Checker) -> None:
             if (is_actual[0] and is_oid[1]) or (is_actual[1] and is_oid[0]):
                 cmps.append((t, ln, rn, isinstance(e.ops[0], ast.NotEq)))
     if not cmps:
-        ck.fail("C07.check", fn, hn, "no comparison between the recomputed hash and the requested oid was found")
+        ck.fail(rule, fn, hn, "no comparison between the recomputed hash and the requested oid was found")
         return
     t, ln, rn, noteq = cmps[0]
-    ck.require(ln == rn, "C07.check", fn, t, "both operands are normalised the same way",
+    ck.require(ln == rn, rule, fn, t, "both operands are normalised the same way",
                "recomputed hash and oid are normalised asymmetrically (e.g. '.dir' suffix stripped on one side only): intact directory objects mismatch",
                construct=f"{t.text()} / symmetric")
     mismatch_lab = "T" if noteq else "F"
@@ -101,27 +101,32 @@ def _check_base(ck: Checker) -> None:
     # mismatch: always deleted, always raises
     r1 = g.reach(mis, skip_node=lambda n: n.id in rm_nodes, skip_edge=lambda a, l, b: a.id in rm_nodes)
     esc = [x for x in (g.exit, g.raise_exit) if x in r1]
-    ck.require(bool(rm_nodes) and not esc, "C07.check", fn, t,
+    ck.require(bool(rm_nodes) and not esc, rule, fn, t,
                "on mismatch the object file is removed on every path",
                "a mismatching object can leave check() without having been deleted",
                witness=g.fmt_path(g.path_to(r1, esc[0])) if esc else None, construct=f"{t.text()} / mismatch deletes")
     r2 = g.reach(mis, skip_edge=lambda a, l, b: False)
-    ck.require(g.exit not in r2, "C07.check", fn, t,
+    ck.require(g.exit not in r2, rule, fn, t,
                "on mismatch check() never returns normally (raises ObjectFormatError)",
                "a mismatching object can be reported as valid: the mismatch edge reaches a normal return",
                witness=g.fmt_path(g.path_to(r2, g.exit)) if g.exit in r2 else None, construct=f"{t.text()} / mismatch raises")
     raised = [n for n in g.nodes.values() if n.id in r2 and n.kind == "stmt" and isinstance(n.ast, ast.Raise) and n.ast.exc is not None]
-    ck.require(any("ObjectFormatError" in norm(n.ast.exc) for n in raised), "C07.check", fn, t,
+    ck.require(any("ObjectFormatError" in norm(n.ast.exc) for n in raised), rule, fn, t,
                "mismatch raises ObjectFormatError", "mismatch does not raise ObjectFormatError (callers swallow exactly that type)", construct=f"{t.text()} / exception type")
     # match: protect precedes return; intact object is never deleted
     prot = {n.id for n in g.nodes.values() for c in calls_at(n) if is_method_call(c, "protect") and norm(c.func.value) == "self"}
     r3 = g.reach(mat, skip_node=lambda n: n.id in prot, skip_edge=lambda a, l, b: l == "exc")
-    ck.require(bool(prot) and g.exit not in r3, "C07.check", fn, t,
+    ck.require(bool(prot) and g.exit not in r3, rule, fn, t,
                "a successful check protects the object before returning",
                "a successful check can return without protecting (read-only marking) the object",
                construct=f"{t.text()} / match protects")
+    for pn in prot:
+        wp = cut(g, [pn], lambda tt, lab: tt.id == t.id and lab == match_lab)
+        ck.require(wp is None, rule, fn, g.nodes[pn], "an object is protected (marked trusted) only after its hash was compared equal",
+                   "check() can protect an object before / without its hash having been compared equal: a mismatching object may be left read-only, and a read-only local object is never re-hashed",
+                   witness=g.fmt_path(wp) if wp else None, construct=f"{g.nodes[pn].text()} / only on match")
     r4 = g.reach(mat)
-    ck.require(not (set(r4) & rm_nodes), "C07.check", fn, t, "an intact object is never deleted",
+    ck.require(not (set(r4) & rm_nodes), rule, fn, t, "an intact object is never deleted",
                "the deletion is reachable on the match edge: an intact object can be deleted", construct=f"{t.text()} / match keeps")
     # with check_hash on, a normal return needs the match edge
     def just(tt, lab):
@@ -130,13 +135,13 @@ def _check_base(ck: Checker) -> None:
         return tt.kind == "test" and isinstance(tt.ast, ast.Name) and tt.ast.id == "check_hash" and lab == "F"
 
     wit = cut(g, [g.exit], just)
-    ck.require(wit is None, "C07.check", fn, fn.node,
+    ck.require(wit is None, rule, fn, fn.node,
                "with hash checking on, check() returns normally only across the 'hashes agree' edge",
                "check() can return normally with hash checking on without the hashes having been compared equal",
                witness=g.fmt_path(wit) if wit else None, construct="normal return / CUT(match)")
 
 
-def _check_local(ck: Checker) -> None:
+def _check_local(ck: Checker, rule: str = "C07.localtrust") -> None:
     prog = ck.prog
     cls = prog.cls("hashfile.db.local", "LocalHashFileDB")
     fn = cls.methods.get("check")
@@ -144,7 +149,7 @@ def _check_local(ck: Checker) -> None:
         raise AnalysisError("LocalHashFileDB.check vanished")
     g = ck.cfg(fn)
     mode = const_int(ck, cls, "CACHE_MODE")
-    ck.require(mode is not None and mode & 0o222 == 0, "C07.localtrust", fn, cls.node,
+    ck.require(mode is not None and mode & 0o222 == 0, rule, fn, cls.node,
                f"CACHE_MODE={oct(mode) if mode is not None else '?'} has no write bit", "CACHE_MODE grants write permission: 'protected' no longer means read-only",
                construct="LocalHashFileDB.CACHE_MODE")
     rets = [n for n in g.nodes.values() if n.kind == "stmt" and isinstance(n.ast, ast.Return)]
@@ -155,13 +160,13 @@ def _check_local(ck: Checker) -> None:
             deleg.append(r)
         else:
             trusted.append(r)
-    ck.floor("C07.localtrust", len(deleg), 1, "delegations to the hashing check")
+    ck.floor(rule, len(deleg), 1, "delegations to the hashing check")
     for r in deleg:
         v = r.ast.value
         a0 = v.args[0] if v.args else next((k.value for k in v.keywords if k.arg == "oid"), None)
         a1 = v.args[1] if len(v.args) > 1 else next((k.value for k in v.keywords if k.arg == "check_hash"), None)
-        ck.require(a0 is not None and norm(a0) == "oid", "C07.localtrust", fn, r, "delegates with the same oid", "delegation passes a different oid")
-        ck.require(a1 is None or norm(a1) == "check_hash", "C07.localtrust", fn, r, "delegates with the caller's check_hash",
+        ck.require(a0 is not None and norm(a0) == "oid", rule, fn, r, "delegates with the same oid", "delegation passes a different oid")
+        ck.require(a1 is None or norm(a1) == "check_hash", rule, fn, r, "delegates with the caller's check_hash",
                    f"delegation overrides check_hash with {norm(a1) if a1 is not None else ''}", construct=f"{r.text()} / check_hash")
 
     def is_mode_eq(t, lab):
@@ -181,7 +186,7 @@ def _check_local(ck: Checker) -> None:
 
     for r in trusted:
         wit = cut(g, [r.id], is_mode_eq)
-        ck.require(wit is None, "C07.localtrust", fn, r,
+        ck.require(wit is None, rule, fn, r,
                    "trust-without-hashing return lies across 'permission bits == CACHE_MODE'",
                    "an object can be reported valid without hashing although its mode is not exactly the protected mode",
                    witness=g.fmt_path(wit) if wit else None)
@@ -193,30 +198,30 @@ def _check_local(ck: Checker) -> None:
                 if isinstance(x, ast.Subscript) and isinstance(x.value, ast.Name):
                     srcs += [norm(a) for a in expand(prog, fn, x.value)]
             ok = any("self.oid_to_path(oid)" in s or s == "_info" for s in srcs)
-            ck.require(ok, "C07.localtrust", fn, t, "the mode examined is that of the object's own file", f"the mode examined does not come from the object's own path: {srcs}", construct=f"{t.text()} / stat source")
+            ck.require(ok, rule, fn, t, "the mode examined is that of the object's own file", f"the mode examined does not come from the object's own path: {srcs}", construct=f"{t.text()} / stat source")
     # is_protected agrees
     ip = cls.methods.get("is_protected")
     if ip is not None:
         txt = " ".join(norm(r.value) for r in walk_own(ip.node) if isinstance(r, ast.Return) and r.value is not None)
-        ck.require("== self.CACHE_MODE" in txt or "self.CACHE_MODE ==" in txt, "C07.localtrust", ip, ip.node,
+        ck.require("== self.CACHE_MODE" in txt or "self.CACHE_MODE ==" in txt, rule, ip, ip.node,
                    "is_protected compares with the same constant by equality", "is_protected no longer tests equality with CACHE_MODE")
     pr = cls.methods.get("protect")
     if pr is not None:
         chm = [c for c in walk_own(pr.node) if isinstance(c, ast.Call) and norm(c.func) == "os.chmod"]
         ok = bool(chm) and all(len(c.args) >= 2 and norm(c.args[0]) == "path" and norm(c.args[1]) == "self.CACHE_MODE" for c in chm)
-        ck.require(ok, "C07.localtrust", pr, pr.node, "protect chmods its own path to CACHE_MODE", "protect does not chmod the given path to CACHE_MODE")
+        ck.require(ok, rule, pr, pr.node, "protect chmods its own path to CACHE_MODE", "protect does not chmod the given path to CACHE_MODE")
 
 
-def _check_exists(ck: Checker) -> None:
+def _check_exists(ck: Checker, rule: str = "C07.exists") -> None:
     prog = ck.prog
     fn = prog.func("hashfile.db.local", "LocalHashFileDB.oids_exist")
     g = ck.cfg(fn)
     retn = {norm(r.value) for r in walk_own(fn.node) if isinstance(r, ast.Return) and isinstance(r.value, ast.Name)}
     apps = [(n, c) for n in g.nodes.values() for c in calls_at(n) if is_method_call(c, "append", "add") and norm(c.func.value) in retn]
-    ck.floor("C07.exists", len(apps), 1, "appends to the result of oids_exist")
+    ck.floor(rule, len(apps), 1, "appends to the result of oids_exist")
     for n, c in apps:
         if not n.loops:
-            ck.fail("C07.exists", fn, n, "result is extended outside the per-oid loop")
+            ck.fail(rule, fn, n, "result is extended outside the per-oid loop")
             continue
         head = g.nodes[n.loops[-1]]
         v = norm(c.args[0]) if c.args else "?"
@@ -228,13 +233,13 @@ def _check_exists(ck: Checker) -> None:
                 if m.id in chk:
                     off = any(k.arg == "check_hash" and not (isinstance(k.value, ast.Constant) and k.value.value is True) for k in c2.keywords) or (
                         len(c2.args) > 1 and not (isinstance(c2.args[1], ast.Constant) and c2.args[1].value is True))
-                    ck.require(not off, "C07.exists", fn, m, "existence query runs the integrity check with hashing on", "existence query disables hashing: a corrupt unprotected object is reported as existing")
+                    ck.require(not off, rule, fn, m, "existence query runs the integrity check with hashing on", "existence query disables hashing: a corrupt unprotected object is reported as existing")
         # the append must be reached from the check through a NORMAL edge only
         def avoid(x):
             return x.id in chk
 
         wit = avoiding_path(g, n.id, avoid, start=head.id)
-        ck.require(bool(chk) and wit is None, "C07.exists", fn, n,
+        ck.require(bool(chk) and wit is None, rule, fn, n,
                    f"oid is reported only after self.check({v}) in the same iteration",
                    "an oid can be reported as existing without having passed check() in this iteration",
                    witness=g.fmt_path(wit) if wit else None)
@@ -242,13 +247,13 @@ def _check_exists(ck: Checker) -> None:
         r = g.reach(list(chk), skip_edge=lambda a, l, b: not (a.id in chk and l == "exc") and a.id in chk)
         exc_targets = [d for cid in chk for lab, d in g.nodes[cid].succ if lab == "exc"]
         r = g.reach(exc_targets, skip_node=lambda x: x.id == head.id)
-        ck.require(n.id not in r, "C07.exists", fn, n,
+        ck.require(n.id not in r, rule, fn, n,
                    "a failed check never leads to the oid being reported",
                    "the handler of a failed check can still report the oid as existing",
                    construct=f"{n.text()} / not from handler")
     for h in [x for x in g.nodes.values() if x.kind == "handler"]:
         ts = handler_types(h.ast)
-        ck.require(set(ts) <= ALLOWED_SWALLOW, "C07.exists", fn, h, f"swallows only {sorted(ts)}", f"existence query swallows {ts}: unrelated errors would be read as 'missing'")
+        ck.require(set(ts) <= ALLOWED_SWALLOW, rule, fn, h, f"swallows only {sorted(ts)}", f"existence query swallows {ts}: unrelated errors would be read as 'missing'")
 
 
 def _check_verify(ck: Checker, rule: str) -> None:
